@@ -808,8 +808,13 @@ func (p *Path) addOffset(ptr Ptr, idx *Term, stride int, n int) Ptr {
 		}
 		ptr.Sym = contrib
 	} else {
-		if len(ptr.Cands)*n > 1<<16 {
-			p.unsup("too many pointer candidates")
+		if len(ptr.Cands)*n > 1<<16 || (ptr.Cands == nil) {
+			// too many targets to enumerate: keep the pointer as base + symbolic offset
+			// without a candidate list. It can be compared and identified (vPtrKey),
+			// but a load or store through it is unsupported.
+			ptr.Sym = ts.Add(ptr.Sym, contrib)
+			ptr.Cands = nil
+			return ptr
 		}
 		for _, c := range ptr.Cands {
 			for i := 0; i < n; i++ {
